@@ -518,11 +518,17 @@ def r133k(W, rep):
         return
     for f, loop, ie in hosts:
         handled = set()
-        for c in loop.calls(('equal', 'consume')):
-            a = c.args()
-            v = a[-1].str_value() if a else None
-            if v is not None:
-                handled.add(v)
+        scopes = [loop]
+        for c in loop.calls():          # helpers the loop hands the token to (one level)
+            fd2 = u.functions.get(c.callee() or '')
+            if fd2 is not None and fd2 is not u.functions.get(f):
+                scopes.append(fd2)
+        for sc in scopes:
+            for c in sc.calls(('equal', 'consume')):
+                a = c.args()
+                v = a[-1].str_value() if a else None
+                if v is not None:
+                    handled.add(v)
         for k in sorted(kws):
             rep.ob('R13.3', 'parse.c:%s:keyword("%s")' % (f, k), k in handled,
                    'is_typename() accepts the keyword `%s`, so the specifier loop of %s() is entered for it, but no branch of the loop compares the token with "%s": '
@@ -830,23 +836,36 @@ def r136(W, engs, rep):
         rep.undecided('R13.6', 'tokenize.c:verror_at', 'the diagnostic printer verror_at() vanished')
         return
     vparams = [c for c in va.inner if c.kind == 'ParmVarDecl']
+    ids = [p.id for p in vparams]
     ok = False
-    fi = li = None
-    for c in va.calls(('fprintf', 'printf', 'dprintf')):
+    printed = set()
+    for c in va.calls(('fprintf', 'dprintf', 'vfprintf')):
         a = c.args()
-        k = 0 if c.callee() == 'printf' else 1
-        fmt = a[k].str_value() if len(a) > k else None
-        if fmt and '%s:%d' in fmt and len(a) >= k + 3:
-            x, y = a[k + 1].strip(), a[k + 2].strip()
-            if x.kind == 'DeclRefExpr' and y.kind == 'DeclRefExpr' and x.ref_kind == 'ParmVarDecl' and y.ref_kind == 'ParmVarDecl':
-                ids = [p.id for p in vparams]
-                if x.ref_id in ids and y.ref_id in ids and 'char' in (x.type or '') and (y.type or '') == 'int':
-                    fi, li = ids.index(x.ref_id), ids.index(y.ref_id)
-                    ok = c.callee() != 'printf' and a[0].src() == 'stderr'
-    rep.ob('R13.6', 'tokenize.c:verror_at:prints-file:line', ok,
-           'verror_at() no longer prints "<file name>:<line number>: " (format "%s:%d" fed from its file-name and line parameters) to stderr: diagnostics do not name a file and a line',
-           where='tokenize.c:%d' % va.line)
-    if fi is None:
+        if not a or a[0].src() != 'stderr':
+            continue
+        for x in a[2:]:
+            x = x.strip()
+            if x.kind == 'DeclRefExpr' and x.ref_id in ids:
+                printed.add(ids.index(x.ref_id))
+        fmt = a[1].str_value() if len(a) > 1 else None
+        if fmt and '%s:%d' in fmt and len(a) >= 4:
+            x, y = a[2].strip(), a[3].strip()
+            if x.kind == 'DeclRefExpr' and y.kind == 'DeclRefExpr' and x.ref_id in ids and y.ref_id in ids and 'char' in (x.type or '') and (y.type or '') == 'int':
+                ok = True
+    cands_f = [k for k, p in enumerate(vparams) if (p.type or '').replace(' ', '') == 'char*']
+    cands_l = [k for k, p in enumerate(vparams) if (p.type or '') == 'int']
+    fi = cands_f[0] if cands_f else None
+    li = cands_l[0] if len(cands_l) == 1 else None
+    where = 'tokenize.c:%d' % va.line
+    if ok:
+        rep.ob('R13.6', 'tokenize.c:verror_at:prints-file:line', True, '', where=where)
+    elif fi is not None and li is not None and fi in printed and li in printed:
+        rep.undecided('R13.6', 'tokenize.c:verror_at:prints-file:line', 'verror_at() prints its file-name and line parameters to stderr, but not in the recognised single "%s:%d" format', where=where)
+    else:
+        rep.ob('R13.6', 'tokenize.c:verror_at:prints-file:line', False,
+               'verror_at() no longer prints "<file name>:<line number>: " to stderr (its %s parameter is not printed): diagnostics do not name a file and a line'
+               % ('line-number' if (li is None or li not in printed) else 'file-name'), where=where)
+    if fi is None or li is None:
         return
     for f in ('error_tok', 'warn_tok', 'error_at'):
         fd = tu.functions.get(f)
@@ -855,16 +874,21 @@ def r136(W, engs, rep):
             continue
         calls = fd.calls('verror_at')
         ps = [c for c in fd.inner if c.kind == 'ParmVarDecl']
-        good = len(calls) == 1
+        good = len(calls) == 1 and bool(ps)
         if good:
             a = calls[0].args()
+            # names that carry the reported position: the first parameter and locals initialised from it
+            carriers = set([ps[0].id])
+            for d in fd.find('VarDecl'):
+                if 'init' in d.d and any(n.kind == 'DeclRefExpr' and n.ref_id in carriers for n in d.walk()):
+                    carriers.add(d.id)
+            uses = lambda x: any(n.kind == 'DeclRefExpr' and n.ref_id in carriers for n in x.walk())
             if f == 'error_at':
-                good = a[fi].src() == 'current_file->name' and any(n.kind == 'DeclRefExpr' and n.ref_id == ps[0].id for n in a[3].walk())
-                what = 'error_at() does not report current_file->name with the position it was given'
+                good = 'current_file' in a[fi].src() and uses(a[3])
+                what = 'error_at() does not report the current file with the position it was given'
             else:
-                t = ps[0].name
-                good = a[fi].src() == '%s->file->name' % t and a[li].src() == '%s->line_no' % t and a[3].src() == '%s->loc' % t
-                what = '%s() does not pass its own token\'s file name, line number and position to verror_at()' % f
+                good = uses(a[fi]) and uses(a[li]) and uses(a[3])
+                what = '%s() does not take the file name, line number and position it reports from its own token argument' % f
         else:
             what = '%s() does not call verror_at() exactly once' % f
         rep.ob('R13.6', 'tokenize.c:%s:location-of-its-argument' % f, good, what, where='tokenize.c:%d' % fd.line)
@@ -874,10 +898,18 @@ def r136(W, engs, rep):
             continue
         body = tu.body(f)
         last = body.inner[-1] if body is not None and body.inner else None
-        good = last is not None and last.kind == 'CallExpr' and last.callee() in ('exit', '_exit') and last.args() and (last.args()[0].int_value() or 0) != 0 \
-            and not fd.find('ReturnStmt')
-        rep.ob('R13.6', 'tokenize.c:%s:exits-nonzero' % f, good,
-               '%s() does not end in exit(<non-zero constant>): after the diagnostic the compiler would continue or exit 0' % f, where='tokenize.c:%d' % fd.line)
+        key = 'tokenize.c:%s:exits-nonzero' % f
+        where = 'tokenize.c:%d' % fd.line
+        if fd.find('ReturnStmt') or last is None or last.kind != 'CallExpr' or last.callee() not in W.noreturn:
+            rep.ob('R13.6', key, False, '%s() can return to its caller or does not end in a call that terminates the process: after the diagnostic the compiler would continue' % f, where=where)
+        elif last.callee() in ('exit', '_exit', '_Exit') and last.args():
+            v = last.args()[0].int_value()
+            if v is None:
+                rep.undecided('R13.6', key, 'the exit code of %s() is not a constant' % f, where=where)
+            else:
+                rep.ob('R13.6', key, v != 0, '%s() ends in exit(0): the compiler reports success after a diagnostic' % f, where=where)
+        else:
+            rep.ob('R13.6', key, True, '', where=where)
 
 
 # --------------------------------------------------------------------------------------------
